@@ -24,9 +24,9 @@ const (
 	kUnknown akind = iota
 	kConst
 	kNil
-	kOrd    // order-abstract integer symbol
-	kPtr    // pointer to a cell
-	kSlice  // slice of cells
+	kOrd   // order-abstract integer symbol
+	kPtr   // pointer to a cell
+	kSlice // slice of cells
 	kTuple
 	kErr    // some non-nil error (glob: identity if it is a package-level sentinel)
 	kStruct // struct value
@@ -140,7 +140,9 @@ type Interp struct {
 	gcells     map[*ssa.Global]*cell
 }
 
-func NewInterp(c *Ctx) *Interp { return &Interp{C: c, MaxSteps: 200000, gcells: map[*ssa.Global]*cell{}} }
+func NewInterp(c *Ctx) *Interp {
+	return &Interp{C: c, MaxSteps: 200000, gcells: map[*ssa.Global]*cell{}}
+}
 
 func (in *Interp) fail(msg string) {
 	if in.Undecided == "" {
@@ -853,7 +855,7 @@ func ptrTo(v aval) (aval, *cell) {
 }
 
 // isNilErr / isErr classify an error-typed result.
-func isNilErr(a aval) bool { return a.k == kNil }
+func isNilErr(a aval) bool  { return a.k == kNil }
 func isSomeErr(a aval) bool { return a.k == kErr }
 
 // byteSlice builds a slice value over fresh cells holding the given bytes.
